@@ -1270,3 +1270,64 @@ def gmt0044(idx, ctx):
         exch(c, ctx)
         RA, RB, sk, _ = M.exch_keys(STD_KEX, b"Alice", b"Bob", EXCH_TEST_RA, EXCH_TEST_RB, 16)
         ctx.check(RA == STD_RA and sk.hex().upper() == STD_SK, "model RA / SK differ from GM/T 0044.3 Annex A", "gmt0044/model")
+
+
+# ---------------------------------------------------------------------------
+# key encapsulation on its own: short key lengths make the all-zero-key retry of GM/T 0044.4 step A6 reachable (1/256 for klen = 1)
+kem_case = st.fixed_dictionaries({"ke": _secret(), "id": _ident(255), "klen": st.sampled_from([1, 1, 1, 1, 2, 16, 32, 33, 100]), "seed": st.integers(0, 1 << 40),
+                                  "aim": st.sampled_from([False, False, False, True])})
+
+
+def _aim_zero_key(ke, ident, seed):
+    """A nonce r whose one-byte KDF output is zero (found with the model by walking r, r+1, ...: one Fp12 multiplication and one point
+    addition per step), so that the first pass of the encapsulation loop has to be retried."""
+    q = (M.h1(ident, M.HID_ENC) + ke) % NN
+    Q = M.g1_mul(q, M.P1)
+    g = M.f12_pow(M.e0(), ke % NN)
+    r = seed % (NN - 4000) + 1
+    c1 = M.g1_mul(r, Q)
+    w = M.f12_pow(g, r)
+    for _ in range(3000):
+        if M.kdf(M.i2b(c1[0]) + M.i2b(c1[1]) + M.f12_to_bytes(w) + bytes(ident), 1) == b"\0":
+            return r
+        r += 1
+        c1 = M.g1_add(c1, Q)
+        w = M.f12_mul(w, g)
+    return None
+
+
+@P.sub("kem", kem_case, quick=1600, thorough=40000, variants=VAR, chunk=40)
+def kem(case, ctx):
+    """sm9_kem_encrypt -> sm9_kem_decrypt: both sides derive the same key, also when the encapsulation had to retry (all-zero KDF output)"""
+    l = L(ctx)
+    ke = u(case["ke"])
+    if ke == NN - 74:      # Ppube would be infinity, see the mul_generator finding (kept out of the scheme checks)
+        ke -= 1
+    ident, klen = mk(case["id"]), case["klen"]
+    msk = _enc_master(ctx, l, ke, "kem")
+    key = _extract_enc(ctx, l, msk, ke, ident, "kem")
+    if key is None:
+        return
+    script = b""
+    if case.get("aim") and klen == 1:
+        r0 = _aim_zero_key(ke, ident, case["seed"])
+        if r0 is not None:
+            script = r0.to_bytes(32, "little")
+    s = shim()
+    s.stream(case["seed"], script)
+    try:
+        kbuf = Buf(klen, fill=0xA5)
+        C = Buf(96, fill=0)
+        r = l.sm9_kem_encrypt(msk, Buf.of(ident), len(ident), klen, kbuf, C)
+        # rand_range redraws values >= N; every accepted draw is one pass through the encapsulation loop
+        draws = sum(1 for i in range(s.draws()) if int.from_bytes(s.draw(i) or b"\xff" * 32, "little") < NN)
+    finally:
+        s.reset()
+    ctx.case(nontrivial=True, classes=["klen=%d" % klen, "retry" if draws > 1 else "first-try"] + (["aimed"] if script else []), ident=case, sample=case)
+    ctx.check(r == 1, "sm9_kem_encrypt ret=%d" % r, "kem/encrypt")
+    ctx.check(any(kbuf.raw()), "sm9_kem_encrypt output an all-zero key", "kem/zero-key")
+    k2 = Buf(klen, fill=0x5A)
+    r2 = l.sm9_kem_decrypt(key, Buf.of(ident), len(ident), C, klen, k2)
+    ctx.check(r2 == 1 and k2.raw() == kbuf.raw(), "sm9_kem_decrypt derives %s, sm9_kem_encrypt output %s (klen=%d, %d entropy draws%s)" %
+              (k2.raw().hex(), kbuf.raw().hex(), klen, draws, ": the encapsulation retried" if draws > 1 else ""),
+              "kem/key-mismatch" + ("/after-retry" if draws > 1 else ""))
